@@ -21,14 +21,22 @@ from concurrent.futures import ThreadPoolExecutor
 from . import build
 
 SRC = os.path.join(build.VERIF, "harness", "fuzz_index.cpp")
+SRC_UTL = os.path.join(build.VERIF, "harness", "fuzz_utl.cpp")
 CORPUS = os.path.join(build.VERIF, "fuzz", "corpus")
 REGRESS = os.path.join(build.VERIF, "fuzz", "regress")
 FLAGS = ["-std=gnu++17", "-g", "-O1", "-fsanitize=fuzzer,address,undefined", "-fno-sanitize-recover=undefined", "-DNMTOOLS_VERIF"]
-TARGET_ID = {"c01": 1, "c06": 6}
+TARGET_ID = {"c01": 1, "c06": 6, "c19_vector": 191, "c19_static_vector": 192, "c19_small_vector": 193}
+TARGET_SRC = {"c01": SRC, "c06": SRC, "c19_vector": SRC_UTL, "c19_static_vector": SRC_UTL, "c19_small_vector": SRC_UTL}
+MAX_LEN = {"c01": 64, "c06": 64, "c19_vector": 96, "c19_static_vector": 96, "c19_small_vector": 96}
+NONTRIVIAL_RULE = {"c01": "dim >= 2 and more than one element", "c06": "operands differ and (ranks differ or they are compatible)",
+                   "c19_vector": "history with a shrink followed by a growth or a mutation of a copied object",
+                   "c19_static_vector": "history with a refused operation at capacity, a shrink followed by a growth or a mutation of a copied object",
+                   "c19_small_vector": "history crossing the static/heap threshold, a shrink followed by a growth or a mutation of a copied object"}
 
 
 def build_target(target):
-    text = open(SRC).read()
+    src = TARGET_SRC[target]
+    text = open(src).read()
     key = hashlib.sha1(("clang++|" + " ".join(FLAGS) + "|" + target + "|" + text + "|" + build.tree_hash()).encode()).hexdigest()[:24]
     d = os.path.join(build.BUILD, "fuzz", key)
     exe = os.path.join(d, "fz_" + target)
@@ -36,7 +44,7 @@ def build_target(target):
         return exe
     os.makedirs(d, exist_ok=True)
     tmp = exe + ".tmp%d" % os.getpid()
-    cmd = ["clang++"] + FLAGS + ["-DNMV_TARGET=%d" % TARGET_ID[target], "-I" + os.path.join(build.REPO, "include"), SRC, "-o", tmp]
+    cmd = ["clang++"] + FLAGS + ["-DNMV_TARGET=%d" % TARGET_ID[target], "-I" + os.path.join(build.REPO, "include"), src, "-o", tmp]
     r = subprocess.run(cmd, capture_output=True, text=True)
     if r.returncode:
         errs = [l for l in r.stderr.splitlines() if "error" in l][:8]
@@ -74,7 +82,7 @@ def _campaign(exe, target, seed, runs, workdir):
     counters = os.path.join(workdir, "counters")
     report = os.path.join(workdir, "report")
     env = dict(os.environ, ASAN_OPTIONS="detect_leaks=0", NMV_FUZZ_COUNTERS=counters, NMV_FUZZ_REPORT=report)
-    cmd = [exe, "-runs=%d" % runs, "-seed=%d" % seed, "-max_len=64", "-print_final_stats=1", "-artifact_prefix=" + art + "/", "-rss_limit_mb=3000", corpus]
+    cmd = [exe, "-runs=%d" % runs, "-seed=%d" % seed, "-max_len=%d" % MAX_LEN[target], "-print_final_stats=1", "-artifact_prefix=" + art + "/", "-rss_limit_mb=3000", corpus]
     r = subprocess.run(cmd, capture_output=True, text=True, env=env)
     out = {"rc": r.returncode, "execs": 0, "cov": None, "features": None, "cases": 0, "nontrivial": 0, "rejected": 0, "crashes": [], "noise": []}
     m = re.search(r"stat::number_of_executed_units:\s*(\d+)", r.stderr)
@@ -116,10 +124,11 @@ def fuzz_phase(prop, target, ctx):
         stats.evaluations += 1
         if ff:
             fails.append(({"_external": True, "fuzz": target, "input_b64": base64.b64encode(data).decode(), "from": "regress/" + os.path.basename(f)}, "fuzz regression input fails: " + ff, {}))
+    scale = ctx.get("fuzz_scale", 1.0)
     if tier == "thorough":
-        plan = [(seed * 100 + k + 1, 4000000) for k in range(8)]
+        plan = [(seed * 100 + k + 1, int(4000000 * scale)) for k in range(ctx.get("fuzz_jobs", 8))]
     else:
-        plan = [(seed * 100 + 1, 400000), (seed * 100 + 2, 400000)]
+        plan = [(seed * 100 + 1, int(400000 * scale)), (seed * 100 + 2, int(400000 * scale))]
     work = tempfile.mkdtemp(prefix="nmv_fuzz_")
     try:
         with ThreadPoolExecutor(len(plan)) as pool:
@@ -140,9 +149,9 @@ def fuzz_phase(prop, target, ctx):
     stats.classes["fuzz:%s:nontrivial_cases" % target] = tot["nontrivial"]
     if tot["rejected"]:
         stats.rejected["fuzz:%s:input_too_short" % target] = tot["rejected"]
-    info["fuzz"] = {"target": target, "campaigns": [{"seed": s, "runs": n, "execs": r["execs"], "cov": r["cov"], "features": r["features"], "crash_artifacts": len(r["crashes"]),
+    info.setdefault("fuzz_targets", {})[target] = {"target": target, "campaigns": [{"seed": s, "runs": n, "execs": r["execs"], "cov": r["cov"], "features": r["features"], "crash_artifacts": len(r["crashes"]),
                                                      "noise_artifacts": r["noise"]} for (s, n), r in zip(plan, res)],
-                    "regression_inputs": len(reg), "nontrivial_rule": "C01: dim >= 2 and more than one element; C06: operands differ and (ranks differ or they are compatible)",
+                    "regression_inputs": len(reg), "nontrivial_rule": NONTRIVIAL_RULE[target],
                     "decoded_cases": tot["cases"], "nontrivial_cases": tot["nontrivial"], "wall_s": round(time.time() - t0, 1)}
     if tot["execs"] == 0:
         fails.append(({"_harness": True}, "HARNESS-ERROR fuzz campaign executed nothing: %s" % [r.get("stderr_tail") for r in res][:1], {}))
